@@ -153,6 +153,8 @@ func c01(ctx *run.Ctx) {
 	}
 	// Other element types (int, int32, int64, float32) for the additive / ordering types.
 	c01TypedCases(ctx)
+	// Parameterless constructors against the documented defaults.
+	c01CtorCases(ctx)
 	// Fixed witness cases of the known findings.
 	for wi, wt := range reg.Witnesses {
 		wi, wt := wi, wt
